@@ -75,6 +75,35 @@ func (m *streeModel) ruleExtremeLeaf(c *Ctx) {
 	}
 }
 
+// ruleSuccessorLeaf (part of R-EXTREME-LEAF): the helper that unlinks the in-order successor during a removal hands
+// back the MINIMUM of the subtree it was given: the node it returns has no small-side child, by a branch fact that
+// dominates the return (the exit edge of the walk down the small side).  A walk that is an `if` instead of a loop
+// stops one level down and loses the rest of the spine.
+func (m *streeModel) ruleSuccessorLeaf(c *Ctx) {
+	fn := m.successorPop()
+	if fn == nil || m.small == nil {
+		return
+	}
+	n := 0
+	allInstrs(fn, func(in ssa.Instruction) {
+		ret, ok := in.(*ssa.Return)
+		if !ok || len(ret.Results) != 1 || !isNamedOrigin(ret.Results[0].Type(), m.nodeT) {
+			return
+		}
+		node := ret.Results[0]
+		want := sym(node) + "." + m.small.Name()
+		known := false
+		for _, cm := range cmpsAt(ret.Block()) {
+			if cm.Op == token.EQL && ((isNilConst(cm.Y) && sym(cm.X) == want) || (isNilConst(cm.X) && sym(cm.Y) == want)) {
+				known = true
+			}
+		}
+		n++
+		c.sawFn(fnName(fn))
+		c.judge(known, "R-EXTREME-LEAF", fmt.Sprintf("%s:detaches the minimum #%d", fnName(fn), n), ret.Pos(), "."+m.small.Name()+" == nil for the node handed back", fmt.Sprintf("%s hands back a node without knowing that its .%s child is nil: it is not the minimum of the subtree (a walk that stops part-way down the spine), and the smaller keys hanging under it are detached with it", fn.Name(), m.small.Name()))
+	})
+}
+
 // ruleMoveNonNil (R-MOVE-NONNIL): the position callback is called unconditionally by every heap operation; every
 // value stored into its field is a function (named or closure), or a parameter on a path where it is known non-nil.
 func ruleMoveNonNil(c *Ctx, m *heapModel) {
@@ -952,6 +981,45 @@ func ruleOkForward(c *Ctx, pkgs ...string) {
 			allInstrs(fn, func(in ssa.Instruction) {
 				ret, ok := in.(*ssa.Return)
 				if !ok || len(ret.Results) != 2 {
+					return
+				}
+				// the answer is the negation of a lookup's own ok, and the value comes from that very lookup
+				if u, isNot := ret.Results[1].(*ssa.UnOp); isNot && u.Op == token.NOT {
+					if ex, isEx := u.X.(*ssa.Extract); isEx {
+						if tup, isT := ex.Tuple.Type().(*types.Tuple); isT && ex.Index == tup.Len()-1 {
+							uses := false
+							var walk func(v ssa.Value, d int)
+							walk = func(v ssa.Value, d int) {
+								if d > 5 || uses {
+									return
+								}
+								switch y := v.(type) {
+								case *ssa.Extract:
+									if y.Tuple == ex.Tuple {
+										uses = true
+									}
+								case *ssa.Field:
+									walk(y.X, d+1)
+								case *ssa.UnOp:
+									if fa, ok := y.X.(*ssa.FieldAddr); ok {
+										if al, ok := fa.X.(*ssa.Alloc); ok {
+											for _, r := range referrersOf(al) {
+												if st, ok := r.(*ssa.Store); ok && st.Addr == ssa.Value(al) {
+													walk(st.Val, d+1)
+												}
+											}
+										}
+									}
+								}
+							}
+							walk(ret.Results[0], 0)
+							if uses {
+								n++
+								c.sawFn(fnName(fn))
+								c.bad("R-OK-FORWARD", fmt.Sprintf("%s:ok answer #%d", fnName(fn), n), ret.Pos(), "the accessor returns the value of a lookup together with the NEGATION of that lookup's ok: present keys are reported absent and absent ones present")
+							}
+						}
+					}
 					return
 				}
 				k, ok := ret.Results[1].(*ssa.Const)
